@@ -355,7 +355,9 @@ tzm_find_zn(const char *zn, size_t zz)
 	char *restrict p = zns;
 	const char *const ep = zns + znz;
 
-	for (; p < ep && *p && strncmp(p, zn, zz); p += strlen(p), p++);
+	/* look for ZN, all of it, not a zone that merely begins with ZN */
+	for (; p < ep && *p && (strncmp(p, zn, zz) || p[zz]);
+	     p += strlen(p), p++);
 	if (*p) {
 		/* found it, yay */
 		return p - zns;
